@@ -1,4 +1,5 @@
 import Verif.Proofs.Lin.Sound
+import Verif.Proofs.Lin.Enum
 /-!
 # C03 — The checker rejects every resource-linearity violation
 
@@ -52,6 +53,28 @@ theorem merge_pointwise (s : St) (ti : Invs) (tri : RI) (e : Option (Invs × RI)
 theorem errors_accumulate (t : Stmt) (s : St) : ∃ l, (check s t).errs = l ++ s.errs :=
   Verif.Proofs.Lin.check_errs t s
 
+/-- **The judge's enumeration is sound.**  Every path the executable judge enumerates (loops
+    unrolled at most `k` times) is a path of the semantics, for every function. -/
+theorem judge_paths_are_paths (k : Nat) (f : Fn) : ∀ p ∈ fnPathsN k f, FnPath f p.1 p.2 :=
+  Verif.Proofs.Lin.fnPathsN_sound k f
+
+/-- so a "not linear" verdict of the judge is exact: the function has a non-linear path -/
+theorem judge_nonlinear_exact (k : Nat) (f : Fn) (h : allLinearN k f = false) : ¬ AllLinear f := by
+  intro hall
+  have : ∃ p ∈ fnPathsN k f, linearB p.1 = false := by
+    simp only [allLinearN] at h
+    have := List.all_eq_false.1 h
+    obtain ⟨p, hp, hb⟩ := this
+    exact ⟨p, hp, by simpa using hb⟩
+  obtain ⟨p, hp, hb⟩ := this
+  have hl := hall p.1 p.2 (judge_paths_are_paths k f p hp)
+  unfold Linear at hl
+  unfold linearB at hb
+  rw [hb] at hl
+  exact absurd hl (by simp)
+
+example : allLinearN 2 ⟨[("p", 1)], .ofList [.ite (.ofList [.atom (.destroy "p" 5)]) .nop]⟩ = false := by decide
+
 /-! ## Findings -/
 
 /-- `let r <- create R(); while c { destroy r }; panic("")` -/
@@ -61,10 +84,8 @@ def loopHaltFn : Fn :=
 /-- **Finding (unsound)**: the checker accepts a function with a path (two loop iterations) that
     destroys `r` twice: the potential invalidation after the loop is only ever reported as a loss
     at the end of `r`'s scope, and a halt suppresses that report. -/
-theorem unsound_witness_loop_then_halt :
-    linCheck loopHaltFn = [] ∧ ∃ p ∈ fnPathsN 2 loopHaltFn, ¬ Linear p.1 := by
-  refine ⟨by decide, ?_⟩
-  exact ⟨([.create "r", .destroy "r", .scopeEnd [], .destroy "r", .scopeEnd []], .halt), by decide, by decide⟩
+theorem unsound_witness_loop_then_halt : linCheck loopHaltFn = [] ∧ ¬ AllLinear loopHaltFn :=
+  ⟨by decide, judge_nonlinear_exact 2 loopHaltFn (by decide)⟩
 
 /-- `while c { let x <- create R(); if c { destroy x; break }; destroy x }` -/
 def breakFn : Fn :=
